@@ -4,7 +4,7 @@
 # The harness sources under /verif/sim are compiled as a package of the defradb
 # module (internal/verifsim) through `-overlay`; /repo is not modified.
 set -euo pipefail
-VERIF=/verif
+VERIF=$(dirname "$(readlink -f "$0")")
 REPO=${VERIF_REPO:-/repo}
 WORK=$VERIF/work
 mkdir -p "$WORK/bin" "$WORK/mod"
